@@ -41,6 +41,12 @@ def rows_of(df, geom_cols):
     return out
 
 
+def _ints(e):
+    if isinstance(e, list):
+        return [_ints(x) for x in e]
+    return int(e)
+
+
 def _fl(e):
     if isinstance(e, list):
         return [_fl(x) for x in e]
@@ -163,6 +169,31 @@ def compare_ops(chk, r, ddf, kind_of_active, prov, rep, boxes, right=None, sourc
                 if sorted(rows_of(j1, g)) != sorted(rows_of(j0, g)):
                     chk.violation(sig(f"sjoin-{how}-differs"), dict(rep, dask=sorted(rows_of(j1, g))[:6], pandas=sorted(rows_of(j0, g))[:6])); return
                 chk.count("op:sjoin-" + how)
+                # the Lean model of the Dask join (`DaskJoin.daskJoin` with `keepOverlap`): its rows and, for every partition with
+                # bounds, its candidate set must be the implementation's
+                lparts = [[None if e is None else [int(c) for c in e] for e in geo.to_elements(p[active].array)] for p in parts]
+                rshapes = geo.to_elements(right.geometry.array)
+                rkind = str(right.geometry.dtype).split("[")[0]
+                if exact and all(float(c) == int(c) for e in rshapes if e is not None for v in geo.verts_of(rkind, e) for c in v):
+                    out = drive([f"dsjoin {how} {tok(lparts)} {rkind} {tok([_fl(e) if e is None else _ints(e) for e in rshapes])}"])[0]
+                    if out == "bad-op":
+                        chk.tie_broken(f"correspondence C06 dask sjoin: model rejects dsjoin for {rep}"); return
+                    mrows, mcands, mtbl = untok(out)
+                    llab, rlab = [str(x) for x in pdf.index], [x for x in right.index]
+                    mpairs = sorted((llab[a], "nan" if b is None else str(rlab[b])) for a, b in mrows)
+                    ipairs = sorted((str(a), "nan" if (isinstance(b, float) and math.isnan(b)) else str(int(b))) for a, b in zip(j1.index, j1["index_right"]))
+                    if mpairs != ipairs:
+                        chk.violation(sig(f"sjoin-{how}-differs-from-model"), dict(rep, model=mpairs[:10], dask=ipairs[:10])); return
+                    if sorted(tuple(x) for x in mtbl) != sorted((a, b) for a, b in mrows if b is not None):
+                        chk.tie_broken(f"model: pair table from the index prefilter != matched rows of the Dask join for {rep}"); return
+                    pbv = ddf.geometry.partition_bounds.values
+                    for pi in range(len(parts)):
+                        if any(math.isnan(float(x)) for x in pbv[pi]):
+                            continue           # NaN query box: whatever the index returns is irrelevant (no row of the partition can match)
+                        real = sorted(int(x) for x in right.geometry.sindex.intersects(pbv[pi]))
+                        if real != sorted(mcands[pi]):
+                            chk.violation(sig("sjoin-partition-candidates-differ-from-model"), dict(rep, partition=pi, impl=real, model=mcands[pi])); return
+                    chk.count("model:dask-sjoin-" + how)
     except Exception as e:  # noqa: BLE001
         import traceback
         chk.violation(sig(f"raises-{common.err_kind(e)}"), dict(rep, error=repr(e)[:300], where=traceback.format_exc()[-600:]))
